@@ -82,10 +82,11 @@ def run(prog, rep, tier, repo):
                 continue
             inner_a = strip_casts(da[0] if fl[0] else da[1])
             inner_b = strip_casts(db[1] if fl[1] else db[0])
-            sts = [s for s in g.stores() if tag(s.target) == 'index']
-            ok = bool(sts)
-            for s in sts:
-                uf = ix.equalities(s.bb)
+            # the equality must hold on every path that returns a value (an assert_eq! leaves no other way out), whatever the loop idiom
+            rets_bb = list(g.cfg.returns) if hasattr(g.cfg, 'returns') else []
+            ok = bool(rets_bb)
+            for bb in rets_bb:
+                uf = ix.equalities(bb)
                 if not uf.same(inner_a, inner_b):
                     ok = False
             if ok:
